@@ -263,6 +263,11 @@ def judge_c15(plan, result):
                 _bump(pr, "scan_after_cancelled_scan_of_same_request")
             if op["cfg"] in faulted_scan_cfgs:
                 _bump(pr, "scan_after_io_error_on_same_request")
+            if res.get("r") == "ok" and res.get("cold"):
+                # not looked at by the harness at creation: judged through the snapshot taken after
+                # its first evaluations, against the reference scan of the same request (I2)
+                _bump(pr, "evaluable_first_used_without_being_looked_at")
+                continue
             if res.get("r") == "ok":
                 snap_of_ev[op["ev"]] = res["snap"]
             st["scans"] += 1
